@@ -149,6 +149,7 @@ class Controller:
         self.op_sites = ()  # file-name fragments: acquisitions made from these files are tagged "op"
         self.role_fn = None  # origin -> role label for locks whose acquire/release is logged
         self.finished = threading.Event()
+        self.no_preempt = False  # while set, the schedule's preemptions are ignored (yield points still counted)
 
     # ------------------------------------------------------------------ threads
     def me(self) -> CT | None:
@@ -238,7 +239,7 @@ class Controller:
         if self.steps > self.max_steps:
             self._abort("steps")
             raise Abort()
-        to = self.pre.get(s)
+        to = None if self.no_preempt else self.pre.get(s)
         self._handoff(me, preempt_to=to if to != me.idx else None, record=True)
 
     def wait_until(self, pred, wake_at=None):
